@@ -1168,10 +1168,12 @@ func genRandomString() (string, error) {
 // // is interpreted as: use whatever protocol you think is OK
 // isSafeLoginDestination reports whether dest stays on this origin as a browser
 // resolves it: a single leading slash followed by neither a slash nor a
-// backslash, and no control characters anywhere.
+// backslash, and no control characters anywhere. Backslashes are refused
+// everywhere: http.Redirect removes dot segments, which could otherwise move
+// one next to the leading slash ("/x/../\\host").
 func isSafeLoginDestination(dest string) bool {
 	if !strings.HasPrefix(dest, "/") || strings.HasPrefix(dest, "//") ||
-		strings.HasPrefix(dest, "/\\") {
+		strings.Contains(dest, "\\") {
 		return false
 	}
 	for i := 0; i < len(dest); i++ {
